@@ -42,6 +42,32 @@ func (br *bodyRun) call(st *State, x ssa.CallInstruction, b *ssa.BasicBlock, idx
 			return br.callStatic(st, fn, fv.Bindings, c.Args, args, rt, x)
 		}
 	}
+	// dynamic call through a function value whose possible targets are known syntactically
+	// (a closure returned by a call, a function-typed field, ...): the union of their frames
+	if fns := resolveFuncValue(c.Value, 0); len(fns) > 0 {
+		merged := &inferredFrame{keys: map[string]string{}}
+		for _, g := range fns {
+			gf := fc.inferFrame(g)
+			if gf.all || gf.paramCalls {
+				merged.all = true
+			}
+			for k, s := range gf.keys {
+				merged.keys[k] = s
+			}
+			merged.locks = merged.locks || gf.locks
+		}
+		if !merged.all {
+			fc.note("dynamic call at %s: targets resolved syntactically (%d), frame inferred (%d heap keys)", fc.posStr(x.Pos()), len(fns), len(merged.keys))
+			na := fc.smt.declare("alloc", "Int")
+			fc.assume(st, app(">=", na, st.alloc))
+			st.alloc = na
+			br.havocInferred(st, merged.keys, fns[0], args, c.Args)
+			if merged.locks {
+				fc.havocHeld(st)
+			}
+			return fc.freshTyped(st, rt, "dyn")
+		}
+	}
 	// dynamic call through a function value
 	fc.note("dynamic call at %s: everything reachable havoc'd", fc.posStr(x.Pos()))
 	if !fc.light {
@@ -386,6 +412,27 @@ func (fc *FnCtx) contractKeys(ct *Contract, fn *ssa.Function, sig *types.Signatu
 			out, all = nil, true
 		}
 	}()
+	if ct.usesInferredFrame() {
+		// the frame is the syntactic frame of the body
+		if fn == nil {
+			return nil, true
+		}
+		fr := fc.inferFrame(fn)
+		if fr.all {
+			return nil, true
+		}
+		for k, s := range fr.keys {
+			out = append(out, mkKS(k, s))
+		}
+		if fr.locks {
+			for k, s := range fc.keySort {
+				if strings.HasPrefix(k, "ghost|held|") {
+					out = append(out, mkKS(k, s))
+				}
+			}
+		}
+		return out, false
+	}
 	if len(ct.Assigns) == 0 {
 		return nil, false
 	}
@@ -528,13 +575,12 @@ func (br *bodyRun) applyContract(st *State, ct *Contract, key string, names []st
 		st.alloc = na
 	}
 	// havoc the frame
-	if ct.Light && !ct.HasAssigns {
-		// a light-mode contract says nothing about the frame
-		fc.havocAll(st)
-	} else if ct.Light {
+	if ct.Light && ct.HasAssigns && !ct.AssignsInferred {
 		fc.note("frame of light-mode function %s is assumed as declared (not checked)", short)
 	}
-	if ct.AssignsInferred {
+	if ct.usesInferredFrame() {
+		// (a light-mode contract without assigns clause says nothing about the frame: the
+		// syntactic frame of the body is used, or everything when that cannot be bounded)
 		if fn := fc.eng.fnByKey[fc.eng.fullKey(key)]; fn != nil {
 			fr := fc.inferFrame(fn)
 			if fr.all {
@@ -912,6 +958,11 @@ func calleeName(ci ssa.CallInstruction) string {
 		return f.Name()
 	case *ssa.MakeClosure:
 		return closureName(f.Fn.(*ssa.Function))
+	case *ssa.Parameter:
+		// a function-typed parameter, called by its name
+		return f.Name()
+	case *ssa.FreeVar:
+		return f.Name()
 	case *ssa.UnOp:
 		// a closure kept in a local variable (cell) or captured from the enclosing function
 		switch x := f.X.(type) {
